@@ -448,6 +448,12 @@ def run_case(case, rec, mon=None):
                 rec.count("statistics_used_through_a_%s" % way)
             except Exception as e:
                 mon.v("copying (%s) a Standardize object raised %r" % (way, e), check="copy_raise", op="apply")
+        if case["idx"] % 4 == 2:
+            from ..common import poke
+
+            for inst in insts:
+                poke(inst)  # attributes (have_stats among them) read, repr(), ==, hash() between accumulation and use
+            rec.count("objects_inspected_between_accumulate_and_apply")
         # probes
         probes = []
         for _ in range(int(rng.integers(2, 6))):
